@@ -671,7 +671,10 @@ fn op_ops(src: Vec<Ev>, ops: &str) -> String {
     let mut buf = String::new();
     let mut out = Vec::new();
     for op in ops.split(',') {
-        if op == "raw" {
+        if op == "reopen" {
+            // hand the underlying stream to a new Reader: the cursor lives in the stream, not in the Reader
+            reader = Reader::new(reader.into_inner());
+        } else if op == "raw" {
             out.push(raw_item(&mut reader, &mut buf).0);
         } else if op == "line" {
             out.push(match reader.read_line(&mut buf) {
